@@ -15,7 +15,9 @@ var intPool = []int64{0, 1, -1, 2, 3, 7, 10, -5, 100, 9999, 10000, math.MaxInt64
 
 // plain strings: no character that needs care in Dump output or layout.
 var strPool = []string{"a", "", "b", "ab", "a b", "1.2.3", "1.2", "2.0.0", "1.x", "10000.1", "0.0.1", "9999.9999.9999",
-	"2021-01-01", "2021-01-01 11:58:56", "2024-02-29", "2023-02-29", "29/02/2024", "nope"}
+	"2021-01-01", "2021-01-01 11:58:56", "2024-02-29", "2023-02-29", "29/02/2024", "nope",
+	// texts that coincide with words the engine uses internally, or that print like values of another type
+	"fi", "if", "DNE", "1", "2", "0", "true", "eventNode"}
 
 var strElemPool = []string{"a", "b", "ab", "", "a b", "c"}
 
@@ -100,6 +102,9 @@ func tyOfVar(name string) m.Ty {
 }
 
 func tyOfConst(name string) m.Ty {
+	if name == "KBIG" {
+		return m.TIntList
+	}
 	for ty, n := range constName {
 		if n == name {
 			return ty
@@ -220,7 +225,7 @@ func (g *G) Fail(ty m.Ty, d int) *m.Node {
 	case 0:
 		return m.Op(g.alias("div", "/", "mod", "%"), g.Expr(m.TInt, d-1), m.Const(int64(0)))
 	case 1:
-		return m.Op(g.alias("add", "+", "mul", "*"), g.Expr(m.TInt, d-1), m.Const("str"))
+		return m.Op(g.alias("add", "+", "mul", "*"), g.Expr(m.TInt, d-1), m.Const(rapid.SampledFrom([]string{"str", "1", "2", "0", "true"}).Draw(g.t, "illstr")))
 	case 2:
 		return m.Op("c_fail", g.kids(m.TInt, d, 0, 2)...)
 	case 3:
